@@ -591,6 +591,9 @@ def _choices_block_obligations(ctx, rule, rid):
             try:
                 it.exec_block([blk], env, w2j.module)
                 got, msg = ("warning" if warnings else "ok"), " ".join(str(w_) for w_ in warnings)
+            except AnalysisError as e:
+                rule.note(f"the choices block reads state this evaluation does not provide ({e}); block obligations skipped")
+                return
             except Raised as e:
                 got, msg = ("error" if "PyXFormError" in e.mro else f"raises {e.exc_name}{e.exc_args}"), str(e.exc_args[0]) if e.exc_args else ""
             ok = got == want and (row_no is None or f"[row : {row_no}]" in msg)
